@@ -866,8 +866,71 @@ def resolution_change_cases(ctx):
                           {"suite": "c15-resolution", "case": case, "first_failing_clause": "each control point is hit exactly on its own tick (D = duration x ticks_per_beat)"})
 
 
+def muted_curve_cases(ctx):
+    """'each control point is hit exactly on its own tick' for a track that was muted for a while: a muted track is silent, its
+    curve is not paused — after unmute() the value on tick t is the curve's value at t, and the last control point arrives on its
+    own tick.  Differential on the implementation: the messages outside the muted stretch are those of the same track never
+    muted (the route the Lean model is compared on), tick for tick."""
+    I = iso()
+    isobar = I["isobar"]
+    from isobar.io.output import OutputDevice
+    r = ctx.rng
+
+    class Rec(OutputDevice):
+        def __init__(self):
+            super().__init__()
+            self.now, self.msgs = 0, []
+
+        def control(self, control=0, value=0, channel=0):
+            self.msgs.append((self.now, control, round(float(value), 9), channel))
+
+    def play(tpb, vals, durs, mode, nticks, mute=None):
+        dev = Rec()
+        tl = isobar.Timeline(tempo=120, output_device=dev, clock_source=isobar.DummyClock(ticks_per_beat=tpb))
+        tr = tl.schedule({"control": 7, "value": isobar.PSequence(list(vals), 1), "duration": isobar.PSequence(list(durs), 1), "channel": 2},
+                         interpolate=mode)
+        for j in range(nticks):
+            dev.now = j
+            if mute and j == mute[0]:
+                tr.mute()
+            if mute and j == mute[1]:
+                tr.unmute()
+            tl.tick()
+        return dev.msgs
+
+    for i in range(ctx.scale(100, 4000)):
+        tpb = r.choice([2, 4, 8, 10, 24, 96])
+        npts = r.randint(3, 6)
+        vals = [r.randint(0, 127) for _ in range(npts)]
+        durs = [r.randint(1, 3 * tpb) / tpb for _ in range(npts)]
+        mode = r.choice(["linear", "cosine"])
+        total = int(round(sum(durs[:-1]) * tpb))
+        if total < 4:
+            continue
+        m0 = r.randint(0, total - 2)
+        m1 = r.randint(m0 + 1, total - 1)
+        nticks = total + 4
+        try:
+            ref = play(tpb, vals, durs, mode, nticks)
+            got = play(tpb, vals, durs, mode, nticks, (m0, m1))
+        except Exception as ex:
+            ctx.note("muted curve case failed to run: %r" % (ex,))
+            continue
+        want = [m for m in ref if not (m0 <= m[0] < m1)]
+        case = {"tpb": tpb, "values": vals, "durations_beats": durs, "mode": mode, "muted_ticks": [m0, m1], "curve_ticks": total}
+        ctx.case(("muted-curve", repr(case)), nontrivial=True, validated=False, sample=dict(case, messages=len(got)) if i < 2 else None)
+        ctx.count("muted-curve:" + mode)
+        if got != want:
+            j = next((j for j, (x, y) in enumerate(zip(got, want)) if x != y), min(len(got), len(want)))
+            ctx.violation("C15:curve-after-unmute",
+                          "a %s track muted on ticks %d..%d of a %d-tick curve sends %d messages, the never-muted track %d outside that stretch; "
+                          "first difference: %s vs %s" % (mode, m0, m1 - 1, total, len(got), len(want), got[j:j + 1], want[j:j + 1]),
+                          {"suite": "c15-muted", "case": case, "first_failing_clause": "each control point is hit exactly on its own tick"})
+
+
 def run(ctx):
     resolution_change_cases(ctx)
+    muted_curve_cases(ctx)
     n = ctx.scale(3000, 160000)
     npat = ctx.scale(1200, 40000)
     cases = [gen_case(ctx.rng, "t%d" % i) for i in range(n)] + [gen_pcase(ctx.rng, "p%d" % i) for i in range(npat)]
